@@ -150,34 +150,111 @@ def r3_builder(ck, F):
         ck.ob(R, "sources-start-empty", is_call(e, "Vec::<T>::new"), "a new builder has no sources", bb, s, nontrivial=False)
 
 
+BAD_ADAPTORS = {"rev", "reverse", "sort", "sort_by", "sort_by_key", "sort_unstable", "sort_unstable_by_key", "skip", "take", "step_by", "filter", "skip_while", "take_while", "dedup"}
+
+
+def _unwrap_borrowed(e):
+    e = e.strip()
+    if e.k == "agg" and e.x.get("variant") == "Borrowed" and e.a:
+        return e.a[0]
+    return e
+
+
+def _seq_of_iter(e):
+    """the sequence an iterator expression yields, as a list of ("one", expr) / ("gathered", expr) / ("?", text)"""
+    e = e.strip()
+    if e.k != "call":
+        return [("?", e.show()[:40])]
+    last = e.x["path"].rsplit("::", 1)[-1]
+    if last in BAD_ADAPTORS:
+        return [("?", "adaptor " + last)]
+    if last == "chain":
+        return _seq_of_iter(e.a[0]) + _seq_of_iter(e.a[1])
+    if last == "once":
+        return [("one", _unwrap_borrowed(e.a[0]))]
+    if last in ("map", "into_iter", "copied", "cloned", "by_ref"):
+        return _seq_of_iter(e.a[0])
+    if last in ("filter_map", "iter", "deref", "as_slice"):
+        if any(x.k == "field" and x.x["name"] == "tmp_entries" for x in e.walk()):
+            names = {x.x["path"].rsplit("::", 1)[-1] for x in e.walk() if x.k == "call"}
+            if names & BAD_ADAPTORS:
+                return [("?", "adaptor in gathered iteration")]
+            return [("gathered", e)]
+        return [("?", e.show()[:40])]
+    return [("?", last)]
+
+
+def value_seq(b, vals, m):
+    """the values handed to the merge function, in order"""
+    v = vals.strip()
+    while v.k == "cast" or (v.k == "call" and v.a and v.x["path"].rsplit("::", 1)[-1] in ("deref", "as_slice", "as_ref", "borrow")):
+        v = v.a[0].strip()
+    if v.k == "call" and v.x["path"].rsplit("::", 1)[-1] in ("collect", "from_iter"):
+        return _seq_of_iter(v.a[0])
+    if v.k == "agg" and v.x.get("ak") == "array":
+        return [("one", _unwrap_borrowed(x)) for x in v.a]
+    if v.k == "call" and v.x["path"].rsplit("::", 1)[-1] in ("with_capacity", "new") and "Vec" in v.x["path"]:
+        # a vector filled step by step: the pushes / extends on it that dominate the merge, in order
+        ops = []
+        for s, c, t in b.calls():
+            n = callee_name(c).rsplit("::", 1)[-1]
+            if n in ("push", "extend", "extend_from_slice", "insert", "append", "truncate", "clear", "pop", "remove", "swap_remove", "reverse", "sort", "sort_by", "retain", "dedup", "drain"):
+                a = b.arg_exprs(s)
+                if a and a[0].strip().k == "call" and a[0].strip().x.get("site") == v.x.get("site"):
+                    ops.append((s, n, a))
+        from .fmt import dom_order
+        order = dom_order(b, [s for s, n, a in ops])
+        seq = []
+        for s in order:
+            n, a = [(n_, a_) for s_, n_, a_ in ops if s_ == s][0]
+            if not b.dominates(s, m):
+                seq.append(("?", f"{n} not on every path to the merge"))
+            elif n == "push":
+                seq.append(("one", _unwrap_borrowed(a[1])))
+            elif n == "extend":
+                seq += _seq_of_iter(a[1])
+            else:
+                seq.append(("?", n))
+        return seq
+    return [("?", v.show()[:50])]
+
+
 def r4_merge_once(ck, F, R="C06-R4"):
     b = F.body(A("merger_iter_next"))
     ms = calls(b, "MergeFunction::merge")
-    ck.exact(R, "merge call sites in MergerIter::next", len(ms), 1, F.config)
+    ck.floor(R, "merge call sites in MergerIter::next", len(ms), 1, F.config)
     pops = calls(b, "BinaryHeap::<T, A>::pop")
     if not ms or not pops:
         return
     first_pop = min(pops, key=lambda x: x[0].key())[0]
+    # exactly one merge per output: the sites exclude each other and none is in a loop
+    excl = all(ms[i][0].bb not in b.reachable_from(ms[j][0].bb) for i in range(len(ms)) for j in range(len(ms)) if i != j)
+    ck.ob(R, "merge-outside-loops", excl and not any(b.in_loop(x[0].bb) for x in ms), f"merge is called outside every loop and at most once on any path ({len(ms)} mutually exclusive site(s)): once per output key", b, ms[0][0])
     m = ms[0][0]
     a = b.arg_exprs(m)
-    ck.ob(R, "merge-outside-loops", not b.in_loop(m.bb), "merge is called outside every loop (once per output key)", b, m)
-    ck.ob(R, "merge-fn", is_self_field(a[0], "merge_function"), "the user's merge function is the one called", b, m, nontrivial=False)
-    key = a[1].strip()
-    okk = key.k == "field" and key.x["idx"] == 0 and any(x.k == "call" and x.x.get("site") == first_pop for x in key.walk())
-    ck.ob(R, "merge-key-is-first-popped", okk, f"merge key = {a[1].show()[:90]} (key of the first popped entry)", b, m)
-    vals = a[2]
-    ch = [x for x in vals.walk() if x.k == "call" and x.x["path"].endswith("Iterator::chain")]
-    ok = len(ch) == 1
-    if ok:
-        x0, x1 = ch[0].a[0], ch[0].a[1]
-        on = [x for x in x0.walk() if x.k == "call" and x.x["path"].endswith("iter::once")]
-        ok0 = len(on) == 1 and on[0].a[0].strip().k == "field" and on[0].a[0].strip().x["idx"] == 1 and any(x.k == "call" and x.x.get("site") == first_pop for x in on[0].walk())
-        names1 = [x.x["path"].rsplit("::", 1)[-1] for x in x1.walk() if x.k == "call"]
-        ok1 = any(x.k == "field" and x.x["name"] == "tmp_entries" for x in x1.walk()) and "rev" not in names1 and set(names1) <= {"filter_map", "iter", "deref", "map"}
-        ok = ok0 and ok1
-        names_all = [x.x["path"].rsplit("::", 1)[-1] for x in vals.walk() if x.k == "call"]
-        ok = ok and not (set(names_all) & {"rev", "reverse", "sort", "sort_by", "sort_by_key", "sort_unstable", "sort_unstable_by_key", "skip", "take", "step_by", "filter"})
-    ck.ob(R, "values-in-pop-order", ok, "values = once(first popped value).chain(values of the gathered entries in gathering order)", b, m)
+    for m_, c_, t_ in ms:
+        a_ = b.arg_exprs(m_)
+        ck.ob(R, "merge-fn", is_self_field(a_[0], "merge_function"), "the user's merge function is the one called", b, m_, nontrivial=False)
+        key = a_[1].strip()
+        okk = key.k == "field" and key.x["idx"] == 0 and any(x.k == "call" and x.x.get("site") == first_pop for x in key.walk())
+        ck.ob(R, "merge-key-is-first-popped", okk, f"merge key = {a_[1].show()[:90]} (key of the first popped entry)", b, m_)
+        seq = value_seq(b, a_[2], m_)
+        ok = bool(seq) and seq[0][0] == "one"
+        if ok:
+            x0 = seq[0][1].strip()
+            ok = x0.k == "field" and x0.x["idx"] == 1 and any(x.k == "call" and x.x.get("site") == first_pop for x in x0.walk())
+        rest = seq[1:]
+        ok = ok and len(rest) <= 1 and all(k == "gathered" for k, _ in rest)
+        if ok and not rest:
+            # no gathered values handed over: only right where nothing was gathered
+            ie = [s for s, c, t in calls(b, "::is_empty") if is_self_field(b.arg_exprs(s)[0], "tmp_entries")]
+            okb = False
+            for s in ie:
+                ed = bool_edges(b, value_site=s)
+                if ed and b.dominates(ed[1], m_.bb) and not b.dominates(ed[2], m_.bb):
+                    okb = True
+            ok = okb
+        ck.ob(R, "values-in-pop-order", ok, f"values = the first popped value, then the values of the gathered entries in gathering order ({[(k, (x.show()[:30] if hasattr(x, 'show') else x)) for k, x in seq]})", b, m_)
     for c in F.closures_of(b.path):
         if c.path.endswith("{closure#0}::{closure#0}"):
             r = c.expr_at_return().strip()
@@ -204,7 +281,8 @@ def r4_merge_once(ck, F, R="C06-R4"):
         tup = alt.a[0].a[0]
         ok = tup.k == "agg" and len(tup.a) == 2 and is_self_field(tup.a[0], "current_key") and is_self_field(tup.a[1], "merged_value")
         s = alt.x.get("site")
-        ck.ob(R, "yields-buffers", ok and b.dominates(m, s), "the entry yielded is (current_key, merged_value), after the merge", b, s)
+        after_merge = s is not None and s.bb not in reachable_without(b, banned_blocks={x[0].bb for x in ms})
+        ck.ob(R, "yields-buffers", ok and after_merge, "the entry yielded is (current_key, merged_value), reached only through a merge", b, s)
 
 
 def r5_pop_push(ck, F, R="C06-R5"):
